@@ -9,6 +9,7 @@ namespace sim {
   int  beginRegion();                              // start a new team (thread ids restart at 1); returns the region number
   void mark(int kind, const void *addr);           // an explicit scheduling point / trace record (kinds >= 6 are free for runtimes)
   void closeTrace();
+  void resetEntropy();                             // start of a run: simulated clock and entropy restart from fixed values
   void barrier(const void *tag, int count);         // barrier among `count` threads of the current region
   void setTrace(const char *file);                 // record every scheduling point (thread, kind, size, step, address)
   void setChecking(bool on);                       // heap checker reports are fatal only while on
